@@ -27,7 +27,7 @@ ASSUMPTIONS = ['for md.Trajectory data the metric model is mdtraj.rmsd itself on
                'clauses that compare two runs bit for bit (shortcut on/off, prefix runs) are evaluated only on '
                'scenarios the float64 model classifies as tie-free',
                'stopping decisions within 1e-11 relative of the cutoff (4e-6 for float32 data, whose kernel subtracts in float32) are accepted either way']
-REACH_EXPECTED = ['rmsd_trajectory_data', 'cutoff_just_below_radius', 'stop_by_count', 'stop_by_cutoff', 'zero_iterations_warm_start', 'triangle_shortcut_compared',
+REACH_EXPECTED = ['estimator_configured_after_construction', 'rmsd_trajectory_data', 'cutoff_just_below_radius', 'stop_by_count', 'stop_by_cutoff', 'zero_iterations_warm_start', 'triangle_shortcut_compared',
                   'mpi_run', 'two_approx_checked', 'prefix_checked', 'init_centers_run', 'init_centers_as_list']
 
 
@@ -51,6 +51,10 @@ def scenario(ctx):
         ctx.hit('init_centers_run')
     poison = t.draw(7) if (mpi and t.flag()) else 0
     spec = dict(algo='kcenters', form=form, k=k, cutoff=cutoff, tri=tri, spelling=spelling)
+    if form == 'estimator' and t.flag(1, 3):
+        # the stopping rule reaches the estimator after construction (set_params / attribute assignment)
+        spec['late_params'] = 1 + t.draw(2)
+        ctx.hit('estimator_configured_after_construction')
     init_list = None
     if init is not None:
         if t.flag():
